@@ -136,6 +136,16 @@ let eval (w : string array) : float list =
     let rv = if aniso then Some r0v else None in
     let pl = pairlist_build fops r0 rv (z_of_int en) (z_of_int ed) tol cell g1 g2 in
     [cv_coordnum_pl fops pl r0 rv (z_of_int en) (z_of_int ed) tol cell h1 h2]
+  | "rmsdperm" ->
+    (* reference, number of permutations, each as n indices into the group's listing order, group *)
+    let n = ni () in
+    let rf = List.init n (fun _ -> v3 ()) in
+    let np = ni () in
+    let rec nat_of_int k = if k <= 0 then O else S (nat_of_int (k - 1)) in
+    let perms = List.init np (fun _ -> List.init n (fun _ -> nat_of_int (ni ()))) in
+    let g = group () in
+    let q = optimal_q (List.split (fit_pairs fops rf g)) in
+    [cv_rmsd_perm fops q rf perms g]
   | "fitcart" ->
     (* cartesian coordinates of a group fitted through fitg: rotate flag, reference, fitting group, group *)
     let rot = ni () <> 0 in
